@@ -1,6 +1,7 @@
 import IpcHub.Drv.Util
 import IpcHub.Model.FlvInst
 import IpcHub.Spec.FlvParse
+import IpcHub.Model.FlvAssume
 /-
 Line protocol of property C08 (one output line per input line):
 
@@ -15,7 +16,7 @@ Line protocol of property C08 (one output line per input line):
        → `model=<hex|err> app=<0|1> spec=<ok|fail> mspec=<ok|fail>`
 -/
 namespace IpcHub.Drv.C08
-open IpcHub.Drv IpcHub.Flv IpcHub.FlvSpec
+open IpcHub.Drv IpcHub.Flv IpcHub.FlvSpec IpcHub.FlvLemmas
 
 def hexVal (b : UInt8) : Option Nat :=
   if 48 ≤ b ∧ b ≤ 57 then some (b.toNat - 48)
@@ -134,13 +135,13 @@ def handleMux (ts : List String) : String :=
                               channels := ach, dataRate := UInt64.ofNat adr, asc := asc }
       let src : Src := { codec := codec, aac := am.aac, sps := sps, pps := pps, vps := vps, asc := asc }
       let want := fromStart src known frames
-      let app := codec ≠ .other && (want.filter (carried src)).all frameOk &&
+      let app := codec ≠ .other && hevcFaithful vm && (want.filter (carried src)).all frameOk &&
                  (want = [] || (videoMetaReady vm && sps.length < 65536 && pps.length < 65536 && vps.length < 65536
                     && asc.length + 2 < 16777216 && date.length < 65536))
       if get kv "join" == some "1" then
         -- a client that joined the running stream: oracle only (Spec.checkJoined on impl=)
         let cf := frames.filter (carried src)
-        let japp := codec ≠ .other && src.usable && known = 0 && cf.all frameOk &&
+        let japp := codec ≠ .other && hevcFaithful vm && src.usable && known = 0 && cf.all frameOk &&
           cf.all (fun f => cf.all (fun g => decide (tagTimeMs g - tagTimeMs f < 2147483648 ∧ tagTimeMs f - tagTimeMs g ≤ 2147483648)))
         s!"model=same dead=0 app={boolStr japp} spec={okStr (checkJoined src frames impl)} mspec=ok"
       else
